@@ -59,7 +59,7 @@ func genC14(dir, tier string, seed int64) {
 	r := rand.New(rand.NewSource(seed))
 	n := 300
 	if tier == "thorough" {
-		n = 4000
+		n = 20000
 	}
 	rw := newCaseWriter(dir, "C14_random", opHeader("CheckC14"), opFooter,
 		"seeded random: rank 0..5, extents 1..6 (B derived from A by dropping leading axes / setting axes to 1 / perturbing one extent, so that compatible and incompatible pairs both occur), all dtypes", false, 300)
